@@ -41,7 +41,7 @@ MaxStream == 48
 
 MCInit ==
     /\ cfg = MCCfg /\ tcb = EmptyFn /\ ck = InitCk /\ ckx = {}
-    /\ viol = {} /\ kf = {} /\ last = "init" /\ groups = EmptyFn /\ pairs = EmptyFn
+    /\ viol = {} /\ kf = {} /\ last = "init" /\ groups = EmptyFn /\ pairs = EmptyFn /\ segs = EmptyFn
     /\ byck = EmptyFn /\ coll = EmptyFn /\ fmt = {}
     /\ hist = << >>
 
